@@ -74,6 +74,19 @@ def v_zip(*xs, strict=False):
     return SSeq(("fun", n, lambda k: tuple(i.get(k) for i in its)), "tuple")
 
 
+def zip_star(x):
+    """zip(*x) for a sequence x of equal-arity tuples: the transpose"""
+    if not isinstance(x, SSeq) or isinstance(x.length(), int):
+        return builtins.zip(*x)
+    n = x.length()
+    if not cur().decide(lift(n) > 0):
+        return builtins.zip()
+    first = x.get(0)
+    if not isinstance(first, tuple):
+        raise Unsupported("zip(*seq) over non-tuple elements")
+    return tuple(SSeq(("fun", n, (lambda k, i=i: x.get(k)[i])), "tuple") for i in range(len(first)))
+
+
 def v_enumerate(x, start=0):
     it = loop_iter(x)
     if it.concrete is not None and not isinstance(start, Sym):
@@ -557,6 +570,15 @@ def Cmp(op, a, b):
     if op == "NotIn":
         return Not(Cmp("In", a, b))
     raise Unsupported(op)
+
+
+def Idx(x, i):
+    """specification-level indexing x[i]: no bounds fork; concrete containers accept symbolic indices"""
+    if isinstance(i, Sym) and isinstance(x, (list, tuple)):
+        if len(x) == 0:
+            return SObj(None, cur().fresh("undef", sym.Obj))   # only reachable under a false range guard
+        return SSeq.of(x).get(i)
+    return x[i]
 
 
 def unpack(q, shape):
